@@ -100,7 +100,7 @@ func worldPorts(w *World) {
 	scfg := map[string]any{
 		"bindAddr": "10.0.0.1", "bindPort": 7000,
 		"auth":              map[string]any{"token": token},
-		"transport":         map[string]any{"tcpMux": tcpMux},
+		"transport":         map[string]any{"tcpMux": tcpMux, "heartbeatTimeout": -1},
 		"allowPorts":        ranges,
 		"maxPortsPerClient": quota,
 		"userConnTimeout":   3,
